@@ -596,9 +596,14 @@ def run(F, rep, tier):
     values_are_not_void(F, rep)
     # .. and an `if` / `case` used as a value has one in every branch: a branch without a value makes the whole expression void
     # (shared with C02 - the value would be nil where the checker says int)
+    # a declared type is checked against the variable the name refers to: scopes close where the source closes them (shared
+    # with C09 - a definition leaking out of a `case .. else` block shadows the outer variable for the rest of the function)
+    import c09
+    c09.scope_rules(F, rep, "SCOPE")
     import core
     core.borrow(rep, c02.value_paths, lambda o: o["rule"] == "VALUE-PATH" and
-                ("|branch-without-value" in o["key"] or "|every-branch-counts" in o["key"] or "|returns-are-not-the-value" in o["key"]), F)
+                ("|branch-without-value" in o["key"] or "|every-branch-counts" in o["key"] or "|returns-are-not-the-value" in o["key"] or
+                 "|trailing-value-" in o["key"]), F)
 
 # every variable-valued field of the resolved AST, classified by reading name_resolution.rs: a *binder* introduces the
 # variable (the resolver fills it from new_var/push_var), a *use* refers to one found by lookup
